@@ -238,12 +238,11 @@ func runC14(c C14Case) (res common.Result) {
 		}
 	}()
 	if len(stuck) > 0 {
-		st := StackOf(dump, "raft-wal.(*WAL)")
-		if st != "" {
-			res.Fail = common.Failf("deadlock", "workers %v never returned after every goroutine had been released; goroutines parked inside raft-wal:\n%s\nschedule: %v", stuck, st, ctl.Trace)
+		if st := ctl.WorkerStacks(dump, stuck); strings.Contains(st, "raft-wal") {
+			res.Fail = common.Failf("deadlock", "workers %v never returned after every goroutine had been released; they are parked for good inside raft-wal (same state in two dumps):\n%s\nschedule: %v", stuck, st, ctl.Trace)
 			return
 		}
-		panic(fmt.Sprintf("workers %v stuck outside raft-wal: harness problem\n%s", stuck, dump))
+		common.Inconclusive("workers %v parked outside raft-wal", stuck)
 	}
 	// judge the calls
 	versions := []*refmodel.LogModel{v0}
